@@ -206,6 +206,21 @@ func enforcePart(w *vc.Writer, r *vc.Rand) {
 		}
 	}
 	results := make([]vc.Val, len(jobs))
+	oks := make([]bool, len(jobs))
+	// one measurement of one job: ( deadline seen by the target ok, ended in time, code )
+	measure := func(j job) (vc.Val, bool) {
+		d := time.Duration(j.ms) * time.Millisecond
+		o := enforceOne(j.entry, j.shape, d)
+		o.conn.Lock()
+		dlOK := true
+		if o.conn.Streams > 0 {
+			// the target must see a deadline, never later than what the client asked for (margin: scheduling of the handler)
+			dlOK = o.conn.HasDeadline && !o.conn.Deadline.After(o.start.Add(d+60*time.Millisecond)) && o.conn.Deadline.After(o.start.Add(d-60*time.Millisecond))
+		}
+		o.conn.Unlock()
+		inTime := o.elapsed <= d+300*time.Millisecond && o.elapsed >= d-20*time.Millisecond
+		return vc.L{dlOK, inTime, o.code}, dlOK && inTime
+	}
 	var wg sync.WaitGroup
 	sem := make(chan struct{}, 8)
 	for i, j := range jobs {
@@ -214,20 +229,20 @@ func enforcePart(w *vc.Writer, r *vc.Rand) {
 			defer wg.Done()
 			sem <- struct{}{}
 			defer func() { <-sem }()
-			d := time.Duration(j.ms) * time.Millisecond
-			o := enforceOne(j.entry, j.shape, d)
-			o.conn.Lock()
-			dlOK := true
-			if o.conn.Streams > 0 {
-				// the target must see a deadline, never later than what the client asked for (margin: scheduling of the handler)
-				dlOK = o.conn.HasDeadline && !o.conn.Deadline.After(o.start.Add(d+60*time.Millisecond)) && o.conn.Deadline.After(o.start.Add(d-60*time.Millisecond))
-			}
-			o.conn.Unlock()
-			inTime := o.elapsed <= d+300*time.Millisecond && o.elapsed >= d-20*time.Millisecond
-			results[i] = vc.L{dlOK, inTime, o.code}
+			results[i], oks[i] = measure(j)
 		}(i, j)
 	}
 	wg.Wait()
+	// The margins above are wall-clock measurements taken from outside the bridge (the clock starts before the client has
+	// even connected): a loaded machine can exceed them although the bridge did nothing wrong. A measurement outside the
+	// margins is therefore repeated alone, up to three times; only a job that is outside the margins every time is reported
+	// (a bridge that drops, doubles or postpones the deadline is outside them every time).
+	for i, j := range jobs {
+		for try := 0; try < 3 && !oks[i]; try++ {
+			time.Sleep(50 * time.Millisecond)
+			results[i], oks[i] = measure(j)
+		}
+	}
 	for i, j := range jobs {
 		w.Case(vc.L{j.entry, j.shape, j.ms}, results[i], true)
 	}
